@@ -149,7 +149,7 @@ package geojson
 //@ spec func holesOK(P *geometry.Poly) bool opaque { forall h int :: (0 <= h && h < geometry.polyNHoles(P)) ==> ringOK(geometry.polyHole(P, h)) }
 //@ spec func ptsRingOK(ps []geometry.Point) bool { len(ps) >= 4 && geometry.ptAt(ps, 0) == geometry.ptAt(ps, len(ps)-1) }
 //@ func parseJSONPolygon
-//@   props C05 C07 C08
+//@   props C05 C07 C08 C12
 //@   arith order
 //@   dead cover.ret3
 //@   entry use rootGlobalsInit()
@@ -169,6 +169,7 @@ package geojson
 //@   stmt polygon.go:"g.base = *poly" assert PHoles: forall h int :: (0 <= h && h < geometry.polyNHoles(poly)) ==> ringOK(geometry.polyHole(poly, h))
 //@   stmt polygon.go:"o = &g" assert GExt: geometry.polyExt(g.base) == geometry.polyExt(poly) && geometry.polyNHoles(g.base) == geometry.polyNHoles(poly) && (forall h int :: geometry.polyHole(g.base, h) == geometry.polyHole(poly, h))
 //@   stmt polygon.go:"o = NewRect(geometry.Rect{" assert RectShortcut: len(holes) == 0 && len(exterior) == 5 && extra == nil && geometry.ptAt(exterior,0).X < geometry.ptAt(exterior,2).X && geometry.ptAt(exterior,0).Y < geometry.ptAt(exterior,2).Y   // C08: the Rect representation is chosen only for a hole-free, extra-free 5-position ring with Min < Max
+//@   stmt polygon.go:"o = NewRect(geometry.Rect{" assert RectExact: geometry.ptAt(exterior,1).X == geometry.ptAt(exterior,2).X && geometry.ptAt(exterior,1).Y == geometry.ptAt(exterior,0).Y && geometry.ptAt(exterior,3).X == geometry.ptAt(exterior,0).X && geometry.ptAt(exterior,3).Y == geometry.ptAt(exterior,2).Y && geometry.ptAt(exterior,4) == geometry.ptAt(exterior,0)   // C08 / C12: the ring IS the corner sequence Min, (Max.X,Min.Y), Max, (Min.X,Max.Y), Min of the rectangle that replaces it, so the point set does not depend on the representation option or on the start vertex
 //@   stmt polygon.go:"o = &g" assert GHoles: holesOK(g.base)
 //@   stmt polygon.go:"o = &g" use polyShapeCopy(poly, g.base)
 //@   stmt polygon.go:"o = &g" assert GShape: geometry.PolyShape(g.base)
